@@ -239,7 +239,7 @@ func RepoFrame(stack string) string {
 		if strings.HasPrefix(l, "\t") || strings.HasPrefix(l, "runtime") {
 			continue
 		}
-		if strings.HasPrefix(l, "verif/") || strings.HasPrefix(l, "main.") {
+		if strings.HasPrefix(l, "verif/") || strings.HasPrefix(l, "main.") || strings.HasPrefix(l, "created by") {
 			continue
 		}
 		if i := strings.LastIndex(l, "("); i > 0 {
@@ -249,7 +249,7 @@ func RepoFrame(stack string) string {
 			return l
 		}
 	}
-	return "?"
+	return "harness"
 }
 
 func trimStack(s string) string {
